@@ -12,7 +12,8 @@ func genC05(g *genCtx) {
 	pool := docPool(r, plainProfile, 4, 1, 40, 14)
 	fixed := []string{"string-join(//a, ',')", "string-join(//*/@k, '-')", "ancestor::a = '1x'", "(//b)[1] = //b", "//b[ancestor::a]", "count(//a[b])",
 		"matches(string(//a), 'a|b')", "replace('abc', 'b', 'x')", "//a[matches(., '1')]", "//*[following::b]", "//a | //b", "sum(//@k) > 1", "//a[last()]", "normalize-space(//a)",
-		"concat(//a, //b)", "//a[position() < 3]/b", "reverse(//a)", "count(reverse(//a))", "string-join(reverse(//a), ',')", "sum(reverse(//@k))", "string(reverse(//*))", "concat(reverse(//a), reverse(//b))", "//*[preceding::a]", "//*[descendant::a/descendant::b]",
+		"concat(//a, //b)", "concat('a', 'b', 'c', string(.))", "concat('1', '2', '3', local-name())", "concat('a', 'b', 'c', 'd', 'e', name(), @k)", "concat('x', 'y', 'z', 'u', 'v', 'w', string(count(*)))",
+		"concat('p', 'q', 'r', 's', 't', 'u', 'v', string(.), 'z')", "string-join(//*, concat('a', 'b', 'c', local-name()))", "//a[position() < 3]/b", "reverse(//a)", "count(reverse(//a))", "string-join(reverse(//a), ',')", "sum(reverse(//@k))", "string(reverse(//*))", "concat(reverse(//a), reverse(//b))", "//*[preceding::a]", "//*[descendant::a/descendant::b]",
 		"//*[matches(string(@k), string(@m))]", "//*[matches(local-name(), concat(local-name(..), '|a'))]", "count(//*[matches(., local-name())])",
 		"//*[replace(local-name(), local-name(..), 'x') = 'x']", "replace(string(//a), local-name(//*[2]), '-')", "//*[matches(local-name(), @a)]",
 		"//*[matches('abc', concat('a', local-name()))]", "string-join(//*[matches(local-name(), 'a|b')], ',')", "//*[*][last()]", "*[*][last()]"}
@@ -428,6 +429,21 @@ func genC16(g *genCtx) {
 			s += r.pick([]string{"(", "[", "*", "\\", "(?P<", ")"})
 		}
 		return s
+	}
+	// the pattern is an argument like any other: computed per node, in whatever syntactic form it is written
+	rxPats := []string{"^a", "b$", "a|b", "^$", "x+", "[a-c]", "z", ".", "^ab", "c"}
+	rxVals := []string{"abc", "xyz", "", "b", "ab", "xx", "cab", "a"}
+	for i := 0; i < g.scale(1500, 15000); i++ {
+		d := Doc{{Depth: 0, Kind: 'r'}, {Depth: 1, Kind: 'e', Name: "r"}}
+		for k, n := 0, 2+r.intn(6); k < n; k++ {
+			d = append(d, Rec{Depth: 2, Kind: 'e', Name: "e", Attrs: []Attr{{Name: "v", Val: r.pick(rxVals)}, {Name: "p", Val: r.pick(rxPats)}}})
+		}
+		pa := r.pick([]string{"string(@p)", "(string(@p))", "concat(@p, '')", "(concat(@p, ''))", "((string(@p)))", "string((@p))", "substring(@p, 1)", "(substring(@p, 1))", "normalize-space(@p)"})
+		if r.chance(1, 2) {
+			g.add(&Case{Kind: "rxsel", Doc: d, Ctx: Ref{0, -1}, Expr: "//e[matches(@v, " + pa + ")]", Extra: "m"})
+		} else {
+			g.add(&Case{Kind: "rxsel", Doc: d, Ctx: Ref{0, -1}, Expr: "//e[replace(@v, " + pa + ", '#') != @v]", Extra: "r"})
+		}
 	}
 	// replacement templates against the template model and its specification (kind tmpl): the pattern matches the
 	// whole subject exactly once; the groups of that match (from Go regexp) travel with the case
